@@ -27,7 +27,10 @@ def run_property(prop, tier, repo, seed=0, quiet=False, write=True):
     run_rules(mod, chk)
     if tier == "thorough" and hasattr(mod, "thorough"):
         mod.thorough(chk)
-        if not chk.violations and os.environ.get("SA_NO_DEEP") != "1":
+        from sa.report import load_known
+        listed = {k.get("key") for k in load_known()["known"] if k.get("property") == prop}
+        unlisted = [v for v in chk.violations if v["key"] not in listed]
+        if not unlisted and os.environ.get("SA_NO_DEEP") != "1":
             _deep(chk, prop, repo)
     return chk
 
